@@ -8,7 +8,7 @@ use emmylua_code_analysis::{
     EmmyLuaAnalysis, Emmyrc, EmmyrcWorkspaceModuleMap, FileId, LuaIndex, LuaModuleIndex, LuaSemanticDeclId, LuaType,
     ModuleVisibility, SemanticDeclLevel, WorkspaceFolder, WorkspaceId, WorkspaceImport, file_path_to_uri,
 };
-use emmylua_parser::{LuaAstNode, LuaCallExpr, LuaExpr};
+use emmylua_parser::{LuaAstNode, LuaExpr, LuaLocalStat};
 use serde_json::{Value, json};
 use std::collections::{BTreeMap, BTreeSet, HashSet};
 use std::path::PathBuf;
@@ -303,6 +303,16 @@ fn candidate_names(cfg: &Cfg, comps: &[String], rewrite: &dyn Fn(&str) -> String
             }
         }
         let rel = relc.join("/");
+        if relc.is_empty() {
+            // the workspace root is the file itself: the module is named after the file stem
+            if let Some(last) = r.comps.last() {
+                let stem = match last[1..].find('.') {
+                    Some(i) => &last[..i + 1],
+                    None => &last[..],
+                };
+                out.insert(rewrite(&stem.replace(['\\', '/'], ".")));
+            }
+        }
         for pat in &cfg.patterns {
             let pat = pat.replace('\\', "/");
             if pat.matches('?').count() != 1 {
@@ -321,7 +331,6 @@ fn candidate_names(cfg: &Cfg, comps: &[String], rewrite: &dyn Fn(&str) -> String
 
 struct World {
     analysis: EmmyLuaAnalysis,
-    cfg: Cfg,
 }
 
 fn build_world(cfg: &Cfg) -> World {
@@ -356,7 +365,7 @@ fn build_world(cfg: &Cfg) -> World {
             analysis.add_library_workspace(&folder);
         }
     }
-    World { analysis, cfg: cfg.clone() }
+    World { analysis }
 }
 
 /// the effective pattern list of a world (update_config derives it from extensions + requirePattern)
@@ -391,7 +400,7 @@ fn module_text(tag: u32) -> String {
 fn main_text(queries: &[String]) -> String {
     let mut s = String::new();
     for (i, q) in queries.iter().enumerate() {
-        s.push_str(&format!("local r{i} = require({})\n", serde_json::to_string(q).unwrap_or_default()));
+        s.push_str(&format!("local r{i} = require({})\nlocal u{i} = r{i}\n", serde_json::to_string(q).unwrap_or_default()));
     }
     s
 }
@@ -403,9 +412,19 @@ fn observe_requires(w: &World, main_id: FileId, queries: &[String]) -> Vec<(Opti
         return out;
     };
     let root = sm.get_root().clone();
-    let calls: Vec<LuaCallExpr> = root.descendants::<LuaCallExpr>().filter(|c| c.is_require()).collect();
-    for (i, call) in calls.iter().enumerate() {
+    let stats: Vec<LuaLocalStat> = root.descendants::<LuaLocalStat>().collect();
+    let mut i = 0usize;
+    for (si, stat) in stats.iter().enumerate() {
+        let Some(LuaExpr::CallExpr(call)) = stat.get_value_exprs().next() else {
+            continue;
+        };
+        if !call.is_require() {
+            continue;
+        }
         let q = queries.get(i).cloned().unwrap_or_default();
+        i += 1;
+        // the use of the local in the next statement: `local u<i> = r<i>`
+        let use_expr = stats.get(si + 1).and_then(|s| s.get_value_exprs().next());
         let ty = sm.infer_expr(LuaExpr::CallExpr(call.clone()));
         let ty_file = match &ty {
             Ok(LuaType::TableConst(inf)) => Some(inf.file_id.id),
@@ -415,9 +434,10 @@ fn observe_requires(w: &World, main_id: FileId, queries: &[String]) -> Vec<(Opti
             Ok(t) => format!("{t:?}"),
             Err(e) => format!("ERR {e:?}"),
         };
-        let decl = sm.find_decl(rowan::NodeOrToken::Node(call.syntax().clone()), SemanticDeclLevel::default());
+        // go-to-definition view: the declaration behind the local bound to the require call
+        let decl = use_expr.and_then(|e| sm.find_decl(rowan::NodeOrToken::Node(e.syntax().clone()), SemanticDeclLevel::default()));
         let decl_file = match decl {
-            Some(LuaSemanticDeclId::LuaDecl(d)) => Some(d.file_id.id),
+            Some(LuaSemanticDeclId::LuaDecl(d)) if d.file_id != main_id => Some(d.file_id.id),
             _ => None,
         };
         let fm = w.analysis.compilation.get_db().get_module_index().find_module(&q).map(|m| m.file_id.id);
